@@ -45,6 +45,18 @@ PY_ONE = "def f():\n    return 4242\n"
 PY_ZERO = '"""clean"""\n\n\ndef f():\n    return 1\n'
 RS_MANY = "fn f(v: Vec<String>) -> i32 {\n    let a = v.get(0).unwrap();\n    for s in v.iter() {\n        let t = s.clone();\n    }\n    4242\n}\n"
 CMDS_FMT = ["text", "json", "sarif"]
+DATA = core.VERIF / "harness" / "data"
+
+
+def write_rich(proj: Path) -> None:
+    """a project in which (nearly) every rule id of every linter fires: the per-linter trigger files of C15 plus a showcase
+    for the cross-file and configuration-dependent rules (stringly-typed kinds, file-placement, lbyl kinds, cqs, pipeline ...)"""
+    (proj / "pkg").mkdir()
+    for n, k in (("one.py", "py"), ("two.py", "py"), ("web.ts", "ts"), ("web2.ts", "ts"), ("lib.rs", "rs")):
+        (proj / n).write_text((DATA / f"trig.{k}.txt").read_text(), encoding="utf-8")
+    for n in ("show_a.py", "show_b.py", "lib2.rs", "syntax_bad.py"):
+        (proj / "pkg" / n).write_text((DATA / "show" / f"{n}.txt").read_text(), encoding="utf-8")
+    (proj / ".thailint.yaml").write_text((DATA / "show" / "thailint.yaml.txt").read_text())
 
 
 def enc(o):
@@ -126,14 +138,17 @@ def impl_case(args) -> dict:
     try:
         proj.mkdir(parents=True)
         name = NAMES[name_i]
-        body = {"many": PY_MANY, "one": PY_ONE, "zero": PY_ZERO}[variant]
+        body = {"many": PY_MANY, "one": PY_ONE, "zero": PY_ZERO, "rich": PY_ZERO}[variant]
         (proj / name).write_text(body, encoding="utf-8")
-        if variant == "many":
+        if variant == "rich":
+            write_rich(proj)
+        elif variant == "many":
             (proj / (name[:-3] + "_two.py")).write_text(body.replace("café_naïve", "other_über"), encoding="utf-8")
             (proj / "lib.rs").write_text(RS_MANY)
         # (a surrogate-escaped file name makes the DRY rule's SQLite insert raise: that crash is C11's subject, see F11b)
         surrogate = any(0xD800 <= ord(ch) <= 0xDFFF for ch in name)
-        (proj / ".thailint.yaml").write_text("{}\n" if surrogate else "dry:\n  enabled: true\n  min_duplicate_lines: 4\n")
+        if variant != "rich":
+            (proj / ".thailint.yaml").write_text("{}\n" if surrogate else "dry:\n  enabled: true\n  min_duplicate_lines: 4\n")
         core._reset_singletons()
         allv = Orchestrator(project_root=proj).lint_directory(proj)
         out["all"] = [{"rule_id": v.rule_id, "file_path": str(v.file_path), "line": v.line, "column": v.column, "message": v.message} for v in allv]
@@ -181,6 +196,11 @@ def usage_cases(root: Path):
         ("malformed --config json", ["srp", "--config", "bad.json", "a.py"], {**ok_py, "bad.json": "{\"srp\": "}, "configMalformed"),
         ("malformed .thailint.yaml", ["magic-numbers", "a.py"], {**ok_py, ".thailint.yaml": "magic-numbers: {allowed_numbers: [1,\n"}, "configMalformed"),
         ("malformed .thailint.json", ["magic-numbers", "a.py"], {**ok_py, ".thailint.json": "{\"magic-numbers\": "}, "configMalformed"),
+        # the global spelling (before the command name) names the application configuration
+        ("malformed global --config yaml", ["--config", "bad.yaml", "nesting", "a.py"], {**ok_py, "bad.yaml": "nesting: [unclosed\n"}, "configMalformed"),
+        ("malformed global -c json, sarif", ["-c", "bad.json", "srp", "--format", "sarif", "a.py"], {**ok_py, "bad.json": "{\"srp\": "}, "configMalformed"),
+        ("invalid value in global --config", ["--config", "loud.yaml", "magic-numbers", "--format", "json", "a.py"], {**ok_py, "loud.yaml": "log_level: LOUD\n"}, "configMalformed"),
+        ("unsupported global --config format", ["--config", "conf.ini", "magic-numbers", "a.py"], {**ok_py, "conf.ini": "x=1\n"}, "configMalformed"),
         ("unknown option", ["nesting", "--no-such-option", "a.py"], ok_py, "usageError"),
         ("bad --format value", ["srp", "--format", "xml", "a.py"], ok_py, "usageError"),
         ("bad --max-depth value", ["nesting", "--max-depth", "abc", "a.py"], ok_py, "usageError"),
@@ -195,7 +215,7 @@ def run(tier: str, seed: int, st: core.ProofStatus) -> core.Result:
     res.rule = ("every linter command x {text,json,sarif} on projects with zero / one / many violations whose file names carry "
                 "non-ASCII, quotes, space, tab, newline, backslash, emoji and surrogate-escaped bytes (quick: seeded sample of "
                 "name x variant x 8 commands; thorough: full matrix), each document compared with the Lean model's rendering of "
-                "the orchestrator's violations; 14 usage-error classes through real subprocesses; non-trivial = a compared "
+                "the orchestrator's violations; 18 usage-error cases through real subprocesses; a 'rich' project in which 29+ rule ids fire is rendered by every command in every format; non-trivial = a compared "
                 "document listing >= 1 violation; distinct by (name, variant, command, format)")
     rng = core.sub_rng(seed, PROP, tier)
     cmds = commands()
@@ -208,6 +228,10 @@ def run(tier: str, seed: int, st: core.ProofStatus) -> core.Result:
     for ni, var in combos:
         cs = cmds if tier == "thorough" else sorted(set(rng.sample(cmds, 6) + ["nesting", "magic-numbers"]))
         work.append((idx, ni, var, cs, str(root)))
+        idx += 1
+    # the rich project: every command x every format in both tiers (commands split over workers)
+    for k in range(0, len(cmds), 3):
+        work.append((idx, 0, "rich", cmds[k:k + 3], str(root)))
         idx += 1
     try:
         impls = core.pmap(impl_case, work, procs=16)
@@ -285,6 +309,8 @@ def run(tier: str, seed: int, st: core.ProofStatus) -> core.Result:
                                         f"{next(((a, b) for a, b in zip(rec['doc'], m['text']) if a != b), None)}")
             if vs:
                 res.nontrivial.add(core.canon([ni, var, c, fmt]))
+                for rid in {v["rule_id"] for v in vs}:
+                    res.bump("rule ids rendered (documents)", rid)
             if problems:
                 res.disagreements.append(core.Disagreement(case=case, impl={"exit": rec["exit"], "doc": str(rec["doc"])[:600]}, model={"exit": m["exit"]}, spec=None,
                                                            property_fails=True, note=" | ".join(problems)[:2500]))
